@@ -152,15 +152,17 @@ Verdict checkBinary(const Operand& A, const Operand& B) {
 }
 
 // everything the property lists for one set operand (and a probe element list)
-Verdict checkUnary(const Operand& A, const Type& setType, const std::vector<Value>& probes, const std::vector<std::vector<int>>& projections) {
+struct Probe { Value v; Plan p; };  // a candidate element and how it is built (possibly lazily)
+
+Verdict checkUnary(const Operand& A, const Type& setType, const std::vector<Probe>& probes, const std::vector<std::vector<int>>& projections) {
   const auto& a = A.v;
   CHECK(A.d.IsCollection(), "structure", A.name + " is not a collection");
   CHECK(A.d.B().Cardinality() == static_cast<obj::Size>(a.card()), "cardinality", "Cardinality(" + A.name + ")=" + std::to_string(A.d.B().Cardinality()) + " want " + std::to_string(a.card()));
   CHECK(A.d.B().IsEmpty() == a.items.empty(), "cardinality", "IsEmpty(" + A.name + ")");
   SUB(readsAs(A.d, a, A.name));
-  for (const auto& e : probes) {
-    const bool got = A.d.B().Contains(buildCanonical(e));
-    CHECK(got == contains(a, e), "contains", "Contains(" + A.name + ", " + str(e) + ")=" + b2s(got));
+  for (const auto& pr : probes) {
+    const bool got = A.d.B().Contains(realize(pr.p));
+    CHECK(got == contains(a, pr.v), "contains", "Contains(" + A.name + ", " + str(pr.v) + ")=" + b2s(got));
   }
   for (const auto& e : a.items) CHECK(A.d.B().Contains(buildCanonical(e)), "contains", A.name + " does not contain its element " + str(e));
   CHECK(A.d.B().IsSubsetOrEq(A.d.B()), "subset", A.name + " is not a subset of itself");
@@ -206,7 +208,12 @@ std::vector<std::vector<int>> genProjections(Ctx& c, const Type& setType) {
 
 // a second operand related to a: equal, a subset, a neighbour, or fresh
 Value genRelated(Ctx& c, const Value& a, const Type& st, const GenOpts& o) {
-  const int how = c.ipick(0, 4);
+  const int how = c.ipick(0, 5);
+  if (how == 5) {  // two-sided: drop some elements, add others
+    std::vector<Value> keep; for (const auto& e : a.items) if (c.coin()) keep.push_back(e);
+    const Value extra = genValue(c, st, o); keep.insert(keep.end(), extra.items.begin(), extra.items.end());
+    return mkSet(std::move(keep));
+  }
   if (how == 0) return genValue(c, st, o);
   if (how == 1) return genNeighbour(c, a, st, o);
   if (how == 2) { std::vector<Value> keep; for (const auto& e : a.items) if (c.coin()) keep.push_back(e); return mkSet(std::move(keep)); }
@@ -214,13 +221,16 @@ Value genRelated(Ctx& c, const Value& a, const Type& st, const GenOpts& o) {
   return a;
 }
 
-std::vector<Value> genProbes(Ctx& c, const Value& a, const Value& b, const Type& st, const GenOpts& o) {
-  std::vector<Value> probes;
-  for (const auto& e : b.items) probes.push_back(e);
+std::vector<Probe> genProbes(Ctx& c, const Value& a, const Value& b, const Type& st, const GenOpts& o) {
+  std::vector<Probe> probes;
+  for (const auto& e : b.items) probes.push_back({e, planCanonical(e)});
   const int n = c.ipick(1, 3);
   for (int i = 0; i < n; ++i) {
-    if (!a.items.empty() && c.coin()) probes.push_back(genNeighbour(c, a.items[static_cast<size_t>(c.pick(0, static_cast<int64_t>(a.items.size()) - 1))], st.elem(), o));
-    else probes.push_back(genValue(c, st.elem(), o));
+    const int how = a.items.empty() ? 2 : c.ipick(0, 2);
+    const Value e = how == 0 ? a.items[static_cast<size_t>(c.pick(0, static_cast<int64_t>(a.items.size()) - 1))]
+                  : how == 1 ? genNeighbour(c, a.items[static_cast<size_t>(c.pick(0, static_cast<int64_t>(a.items.size()) - 1))], st.elem(), o)
+                             : genValue(c, st.elem(), o);
+    probes.push_back({e, plan(c, e, Repr::MIXED)});
   }
   return probes;
 }
@@ -235,7 +245,7 @@ Verdict propSetAlgebra(Ctx& c) {
   BuildLog la, lb;
   const Plan pa = plan(c, a, Repr::MIXED, &la), pb = plan(c, b, Repr::MIXED, &lb);
   c.show << "type=" << str(st) << " a=" << str(a) << " b=" << str(b) << "\n A=" << str(pa) << "\n B=" << str(pb) << "\n probes:";
-  for (const auto& e : probes) c.show << " " << str(e);
+  for (const auto& e : probes) c.show << " " << str(e.p);
   if (!prs.empty()) { c.show << " pr:"; for (const int i : prs.back()) c.show << i; }
   c.nontrivial = depth(a) >= 2 || depth(b) >= 2 || la.lazyNodes + lb.lazyNodes > 0;
   labelValue(c, a, la);
@@ -267,12 +277,12 @@ Value genLazyShaped(Ctx& c, Type& typeOut, std::string& shape) {
   switch (k) {
     default:
     case 0: {  // B(S)
-      o.maxSet = c.ipick(0, 7); o.ids = 6; shape = "boolean";
+      o.maxSet = c.chance(1, 10) ? 7 : c.ipick(0, 5); o.ids = 7; shape = "boolean";
       typeOut = Type::set(Type::set(u));
       return powerset(genValue(c, Type::set(u), o));
     }
     case 1: {  // F1 x .. x Fk
-      const int arity = c.ipick(2, 3); o.maxSet = arity == 2 ? 6 : 4; o.ids = 5; o.emptyPct = 3; shape = "decartian";
+      const int arity = c.ipick(2, 3); o.maxSet = arity == 2 ? 5 : 3; o.ids = 5; o.emptyPct = 3; shape = "decartian";
       std::vector<Type> ts; std::vector<Value> fs;
       for (int i = 0; i < arity; ++i) { const Type ti = i == 0 ? u : genType(c, 1, 2); ts.push_back(ti); fs.push_back(genValue(c, Type::set(ti), o)); }
       typeOut = Type::set(Type::tuple(ts));
@@ -319,7 +329,7 @@ Verdict propEagerLazy(Ctx& c) {
   BuildLog ll, le, lw;
   const Plan pl = plan(c, v, Repr::LAZY, &ll), pe = plan(c, v, Repr::EAGER, &le), pw = plan(c, w, Repr::MIXED, &lw), pd = plan(c, d, Repr::MIXED, &lw);
   c.show << "shape=" << shape << " type=" << str(st) << " v=" << str(v) << "\n w=" << str(w) << "\n d=" << str(d) << "\n L=" << str(pl) << "\n E=" << str(pe) << "\n W=" << str(pw) << "\n D=" << str(pd) << "\n probes:";
-  for (const auto& e : probes) c.show << " " << str(e);
+  for (const auto& e : probes) c.show << " " << str(e.p);
   if (!prs.empty()) { c.show << " pr:"; for (const int i : prs.back()) c.show << i; }
   c.nontrivial = ll.lazyNodes > 0;
   c.label("shape:" + shape);
@@ -468,37 +478,35 @@ Verdict propCopyIsolation(Ctx& c) {
 // ---------------------------------------------------------------------------------------------------- nested iteration
 // one lazy set object (and copies sharing its payload) iterated by several iterators at once
 Verdict propNestedIteration(Ctx& c) {
-  GenOpts o; o.shapedPct = 0; o.emptyPct = 3;
   const bool boolean = c.coin();
   Type st; Value v;
+  // cardinalities are chosen directly (distinct elements by construction) so that sets beyond the 100-entry cache are common
+  auto firstN = [](int n, int from) { std::vector<Value> e; for (int i = 0; i < n; ++i) e.push_back(mkInt(from + i)); return mkSet(std::move(e)); };
   if (boolean) {
-    o.maxSet = c.ipick(0, 8); o.ids = 9;
+    const int n = c.chance(1, 3) ? c.ipick(7, 8) : c.ipick(0, 6);
     st = Type::set(Type::set(Type::base("X1")));
-    std::vector<Value> base;
-    for (int i = 0; i < o.maxSet; ++i) base.push_back(mkInt(c.pick(1, 9)));
-    v = powerset(mkSet(std::move(base)));
+    v = powerset(firstN(n, c.ipick(1, 3)));
   } else {
     const int arity = c.ipick(2, 3);
-    o.maxSet = arity == 2 ? 12 : 5; o.ids = 12;
     std::vector<Type> ts; std::vector<Value> fs;
-    for (int i = 0; i < arity; ++i) { ts.push_back(Type::base("X1")); fs.push_back(genValue(c, Type::set(ts.back()), o)); }
+    for (int i = 0; i < arity; ++i) { ts.push_back(Type::base("X1")); fs.push_back(firstN(c.ipick(1, arity == 2 ? 14 : 6), c.ipick(1, 3))); }
     st = Type::set(Type::tuple(ts));
     v = product(fs);
   }
   // modes: 0 nested range-for holding references, 1 nested holding copies, 2 iterate + query the same object,
   //        3 two live iterators (references), 4 two live iterators (copies), 5 reference to the first element kept over a full pass,
-  //        6 product whose factors are one shared lazy set (partial pass)
-  const int mode = c.ipick(0, 6);
+  //        6 product whose factors are one shared lazy set (partial pass), 7 like 2 + IsSubsetOrEq (which iterates the same object) while a reference is held
+  const int mode = c.ipick(0, 7);
   const int lag = c.ipick(1, 120);
   BuildLog log;
   const Plan pl = plan(c, v, Repr::LAZY, &log);
-  static const char* modes[] = {"nested-ref", "nested-copy", "iterate+query", "two-iterators-ref", "two-iterators-copy", "first-ref-kept", "shared-factor-product"};
+  static const char* modes[] = {"nested-ref", "nested-copy", "iterate+query", "two-iterators-ref", "two-iterators-copy", "first-ref-kept", "shared-factor-product", "iterate+subset-query"};
   c.show << modes[mode] << " lag=" << lag << " card=" << v.card() << " L=" << str(pl);
   c.nontrivial = log.lazyNodes > 0;
   c.label(std::string("mode:") + modes[mode]);
   c.label(v.card() > 100 ? "card:>100" : v.card() > 16 ? "card:17-100" : "card:<=16");
   c.label(boolean ? "shape:boolean" : "shape:decartian");
-  const bool holdsReference = mode == 0 || mode == 3 || mode == 5;
+  const bool holdsReference = mode == 0 || mode == 3 || mode == 5 || mode == 7;
   // known finding: the element cache of a lazy set is cleared when it holds 100 entries, which invalidates references
   // obtained from other live iterators of the same object
   if (pbt::known(kKnownCacheRef) && holdsReference && v.card() > 100 && log.lazyNodes > 0) return pbt::excluded(kKnownCacheRef);
@@ -528,12 +536,12 @@ Verdict propNestedIteration(Ctx& c) {
       CHECK(i == seq.size(), "nested-iteration", "outer loop yields " + std::to_string(i) + " elements");
       break;
     }
-    case 2: {
+    case 2: case 7: {
       size_t i = 0;
       for (const auto& x : L.B()) {
         CHECK(L.B().Contains(x) && L2.B().Contains(x), "contains", "element " + std::to_string(i) + " not contained while iterating");
         CHECK(L.B().Cardinality() == static_cast<obj::Size>(seq.size()), "cardinality", "Cardinality while iterating");
-        if (i % 16 == 0) CHECK(L2.B().IsSubsetOrEq(L.B()), "subset", "L is not a subset of itself while iterating");
+        if (mode == 7 && i % 16 == 0) CHECK(L2.B().IsSubsetOrEq(L.B()), "subset", "L is not a subset of itself while iterating");
         CHECK(elemIs(x, i), "nested-iteration", "element " + std::to_string(i) + " wrong");
         ++i;
       }
@@ -592,11 +600,11 @@ Verdict propNestedIteration(Ctx& c) {
 
 int main(int argc, char** argv) {
   std::vector<pbt::Prop> props;
-  props.push_back({"equality", propEquality, 6000, 60000, false, false, "one value through two constructions + a related value: ==, <, Compare, read-back, type"});
-  props.push_back({"order_laws", propOrder, 3000, 30000, false, false, "3-5 related values of one type: irreflexive, total, transitive, consistent with =="});
-  props.push_back({"set_algebra", propSetAlgebra, 5000, 50000, false, false, "two related sets: membership, subset, cardinality, iteration, union/intersect/diff/symdiff, projection, reduce, singleton, debool"});
-  props.push_back({"eager_vs_lazy", propEagerLazy, 2500, 25000, false, false, "full power sets / products (nested, inside sets) built lazily and enumerated"});
-  props.push_back({"copy_isolation", propCopyIsolation, 4000, 40000, false, false, "copy / assign / AddElement / wrap histories on values sharing a payload"});
-  props.push_back({"nested_iteration", propNestedIteration, 1500, 15000, false, false, "several live iterators / queries on one lazy set object"});
+  props.push_back({"equality", propEquality, 3500, 60000, false, false, "one value through two constructions + a related value: ==, <, Compare, read-back, type"});
+  props.push_back({"order_laws", propOrder, 1600, 30000, false, false, "3-5 related values of one type: irreflexive, total, transitive, consistent with =="});
+  props.push_back({"set_algebra", propSetAlgebra, 2000, 50000, false, false, "two related sets: membership, subset, cardinality, iteration, union/intersect/diff/symdiff, projection, reduce, singleton, debool"});
+  props.push_back({"eager_vs_lazy", propEagerLazy, 500, 20000, false, false, "full power sets / products (nested, inside sets) built lazily and enumerated"});
+  props.push_back({"copy_isolation", propCopyIsolation, 3000, 40000, false, false, "copy / assign / AddElement / wrap histories on values sharing a payload"});
+  props.push_back({"nested_iteration", propNestedIteration, 800, 15000, false, false, "several live iterators / queries on one lazy set object"});
   return pbt::main(argc, argv, "C15", props);
 }
